@@ -462,6 +462,21 @@ ADD_NOTE = (" Translator tie (harness/py2coq_add.py; OrderBook.add in coq/theori
 for _p in ("C04", "C19"):
     CLAIMS[_p]["ties"] += (_add_tie,)
     CLAIMS[_p]["text"] += ADD_NOTE
+
+
+def _cancel_tie():
+    import translated
+    return translated.cancel_tie()
+
+
+CANCEL_NOTE = (" Translator tie (harness/py2coq_cancel.py; OrderBook.cancel in coq/theories/CancelPy.v): Market._cancel_order is REGENERATED from /repo's source on every run, "
+               "statement by statement, and coq/translated/CancelC04Proofs.v is re-checked against the generated text: for a cancel naming an order as the market holds it "
+               "(resting on its side, or remembered among those that left) it IS the model's cancel_order - a resting order leaves its side and is remembered as it was, an "
+               "order that already left changes nothing in the book, either way mid and market price are refreshed and exactly one record with the order as it is now and "
+               "the time of the cancel is reported.")
+for _p in ("C04", "C08", "C10"):
+    CLAIMS[_p]["ties"] += (_cancel_tie,)
+    CLAIMS[_p]["text"] += CANCEL_NOTE
 CLAIMS["C06"]["text"] += TICK_NOTE
 CLAIMS["C06"]["text"] += (" Translator tie (harness/py2coq_series.py): Market._fill_until is REGENERATED from /repo's source on every run - which series is assigned, which one is "
                           "extended, whose length is measured and the padding value are read from each statement - and coq/translated/SeriesC06Proofs.v is re-checked against the "
